@@ -255,6 +255,8 @@ pub struct World {
     pub slots: BTreeMap<u32, (std::sync::Arc<Handle>, u32)>,
     pub flags: BTreeMap<u32, bool>,
     pub flag_waiters: BTreeMap<u32, Vec<Waker>>,
+    /// next tick (virtual microseconds since the run began) of each actor's interval (Op::Tick)
+    pub ticks: BTreeMap<u32, u64>,
     pub nonce: u64,
     pub cur_op: Option<(Who, u32)>,
     /// value of the process-wide dead-letter counter at this run's first snapshot (the log holds deltas)
@@ -287,6 +289,7 @@ pub fn install(erase: Option<u64>, nonce_seed: u64) {
             erase,
             probes: Probes::default(),
             dl_base: None,
+            ticks: BTreeMap::new(),
             max_log: 12000,
             overflow: false,
             closing: false,
